@@ -16,10 +16,10 @@ import json, os, re, concurrent.futures as cf
 from vlib import Infra, log, read_ndjson, write_ndjson
 
 PROFILE = {
-    "C12": dict(quick=["F1q", "F3", "F4", "F5", "F6q", "F7", "F8", "F9", "F10", "F11", "F12", "F13", "F14", "F15q"], thorough=["F1", "F2", "F3", "F4", "F5", "F6", "F7", "F8", "F9", "F10", "F11", "F12", "F13", "F14", "F15"],
+    "C12": dict(quick=["F1q", "F3", "F4", "F5", "F6q", "F7", "F8", "F9", "F10", "F11", "F12", "F13", "F14", "F15q", "F16"], thorough=["F1", "F2", "F3", "F4", "F5", "F6", "F7", "F8", "F9", "F10", "F11", "F12", "F13", "F14", "F15", "F16"],
                 rand=(160, 8000), mode="C12"),
-    "C14": dict(quick=["G1c", "G2b", "G2X", "G2S", "G2T", "G3", "G4", "G4X", "G5", "G6", "G7", "G8", "G9"],
-                thorough=["G1c", "G1l", "G1h", "G2a", "G2b", "G2c", "G2d", "G2e", "G2X", "G2S", "G2T", "G3", "G4", "G4X", "G5", "G6", "G7", "G8", "G9"],
+    "C14": dict(quick=["G1c", "G2b", "G2X", "G2S", "G2T", "G3", "G4", "G4X", "G5", "G6", "G7", "G8", "G9", "G10q", "G11"],
+                thorough=["G1c", "G1l", "G1h", "G2a", "G2b", "G2c", "G2d", "G2e", "G2X", "G2S", "G2T", "G3", "G4", "G4X", "G5", "G6", "G7", "G8", "G9", "G10", "G11"],
                 rand=(160, 8000), mode="C14"),
     "C20": dict(quick=["H1q", "H2", "H3", "H4", "H5", "H6"], thorough=["H1", "H2", "H3", "H4", "H5", "H6"], rand=(160, 6000), mode="C20"),
 }
@@ -135,6 +135,10 @@ def run(ctx):
     prof = PROFILE[prop]
     fams = prof[ctx.tier]
     nrand = prof["rand"][0 if ctx.quick() else 1]
+    # development aid only (never set by bin/check or the manifest): run a subset of the families by hand
+    if os.environ.get("VERIF_SCHEMA_FAMS"):
+        fams = os.environ["VERIF_SCHEMA_FAMS"].split(",")
+        nrand = int(os.environ.get("VERIF_SCHEMA_NRAND", nrand))
     chunks = 8
     nrand -= nrand % chunks
     ctx.build(["sc"])
@@ -235,7 +239,12 @@ def run(ctx):
                 continue
             sig = dict(site="replay", cmp=m["cmp"], attr=m["attr"], nodekind=m["nodekind"], fam=o["fam"],
                        cls=",".join(sorted(o.get("cls") or [])), filter=m.get("filter", ""))
-            ctx.disagree(sig, f"{m['cmp']}: {m['attr']} of {m['nodekind'] or 'module set'} at {m['path'] or '/'} (family {o['fam']}, spec verdict {o['verdict']} {o['errs']})",
+            what = f"{m['attr']} of {m['nodekind'] or 'module set'} at {m['path'] or '/'}"
+            if m["attr"] == "verdict":
+                what = f"verdict {(m.get('got') or '?').split()[0]} where {(m.get('want') or '?').split()[0]} is " + ("prescribed" if m["cmp"] != "alt-vs-original" else "the verdict on the original")
+            if o.get("src"):
+                what += f", enabled features given through {re.sub(r'[0-9]+', 'n', o['src'])}"
+            ctx.disagree(sig, f"{m['cmp']}: {what} (family {o['fam']}, spec verdict {o['verdict']} {o['errs']})",
                          dict(kind="replay", id=o["id"], fam=o["fam"], mismatch=m, spec_verdict=o["verdict"], spec_errors=o["errs"],
                               yang=o.get("texts"), rewritten=o.get("alttexts"),
                               how=f"bin/check {prop} --tier {ctx.tier} --seed {ctx.seed}; or write the YANG texts to files and run harness/cmd/sc yang <files>"))
@@ -246,7 +255,8 @@ def run(ctx):
         o = by_id.get(f["id"], {})
         sig = dict(site="trace", cmp="prune-of-unfiltered" if f["site"] == "filter" else "model-vs-code", attr=f["attr"], nodekind=f["kind"],
                    fam=o.get("fam", "?"), cls=",".join(sorted(o.get("cls") or [])), filter=f["filter"])
-        ctx.disagree(sig, f"trace rejected: {f['site']} {f['attr']} of {f['kind'] or 'module set'} at {f['path'] or '/'} {f['filter']}",
+        via = f" (enabled features given through {re.sub(r'[0-9]+', 'n', o['src'])})" if o.get("src") else ""
+        ctx.disagree(sig, f"trace rejected: {f['site']} {f['attr']} of {f['kind'] or 'module set'} at {f['path'] or '/'} {f['filter']}{via}",
                      dict(kind="trace", failure=f, fam=o.get("fam"),
                           how=f"bin/check {prop} --tier {ctx.tier} --seed {ctx.seed} (VERIF_KEEP=1 keeps trace.ndjson; event id {f['id']})"))
     distinct = len(judged_keys | set(rand_keys.values())) - min(unj_trace, len(set(rand_keys.values())))
@@ -287,14 +297,19 @@ MANIFEST = {
              "dump(M) = dump(Inline(M)) = predicted, attribute by attribute (namespace, module, submodule, config, status, default, mandatory, must, when, ...); "
              "every RFC prohibition (missing refine/augment target, refinement a node kind does not take, mandatory node into another module, sibling clash) "
              "is an explicit error verdict that the compiler must share. Larger sampled module sets are judged by the trace spec.",
-             note="cases the RFC leaves open (status or when on both the uses and the copied node, refine through a node with a status, augment order, equal names in "
-                  "different namespaces) are generated but unjudged and counted", design="4 C12", technique=YS),
+             note="cases the RFC leaves open (an own status of an introduced node that is LESS obsolete than the status on the uses/augment, refine through a node with a "
+                  "status, augment order, equal names in different namespaces) are generated but unjudged and counted; an own status at least as obsolete as the one "
+                  "on the uses/augment stands, description/reference of the uses/augment stay with that statement", design="4 C12", technique=YS),
  "C14": dict(text="The spec's Build step inherits config and status downwards (config true under false and a status stronger than the parent's are errors), "
              "evaluates presence from the enabled feature set through transitive feature dependencies (all 2^3 sets per placement), applies the same-module "
              "reference-status rule to uses, if-feature, feature dependencies and augments, and applies deviate add/replace/delete/not-supported as edits of the "
              "target's source with the RFC's admissibility rules. TLC checks Schema(M + D) = Schema(Edit(M, D)); the harness compiles M + D and Edit(M, D) and "
-             "requires both dumps to equal the prediction.",
-             note="replace of a property that exists only implicitly and reference status between a module and its submodule are unjudged; when a feature or "
+             "requires both dumps to equal the prediction. The enabled-feature set is an input with several ways in: every kind of FeaturesChecker alone, "
+             "MultiFeatureCheckers with agreeing, disagreeing (both orders), silent, nil and nested members (documented: the last definite answer wins, Disabled if "
+             "none), and compile.Config (capability directory + Config.Features, compiled from files) - SrcStatus in the spec. A deviate statement naming a "
+             "single-instance property twice is refused (grammar), two deviate statements are judged where their order cannot matter.",
+             note="which of Config.Features and the capability directory has the last word, and whether a capability directory without the file is silent or "
+                  "Disabled, is documented nowhere: sources on which these readings differ are unjudged; replace of a property that exists only implicitly and reference status between a module and its submodule are unjudged; when a feature or "
                   "not-supported removes a leaf that a list names in key/unique, or the default case of a choice, the node must be absent but the compile verdict "
                   "and that one attribute of the parent are not judged (verdict open); type value spaces are not modelled", design="4 C14", technique=YS),
  "C20": dict(text="Prune(schema, f) removes every node failing the filter with its subtree for the filters of compile_filters.go (IsConfig/IsState/IsOpd under "
